@@ -548,6 +548,105 @@ func (g *c16Gen) strategy(i int, seed uint64) *c16Scenario {
 	return sc
 }
 
+// selectors an object without the map (no labels / no annotations at all) still satisfies
+var c16BareLabelSels = []*c16Sel{nil, {}, {Exprs: []c16Expr{{Key: "skip", Op: "DoesNotExist"}}}, {Exprs: []c16Expr{{Key: "env", Op: "NotIn", Values: []string{"prod"}}}}}
+var c16BareAnnotSels = []*c16Sel{nil, {}, {Exprs: []c16Expr{{Key: "optout", Op: "DoesNotExist"}}}}
+
+// bare: a target whose metadata has no labels map, no annotations map, or neither (absent, not empty), and an
+// answer that asks nothing of it (empty, keys with their current value, nulls for absent keys) or, as control,
+// a genuine change. Nothing to change means no request; in particular no update carrying an empty map.
+func (g *c16Gen) bare(i int, seed uint64) *c16Scenario {
+	r := g.r
+	sc := g.basic("bare", i, seed)
+	var rule *c16RuleSpec
+	for j := range sc.Ctl.Rules {
+		if sc.Ctl.Rules[j].Kind == sc.Target["kind"] {
+			rule = &sc.Ctl.Rules[j]
+		}
+	}
+	md := sc.Target["metadata"].(map[string]interface{})
+	shape := r.Intn(3)
+	if shape == 0 || shape == 2 {
+		delete(md, "labels")
+		rule.Labels = c16BareLabelSels[r.Intn(len(c16BareLabelSels))]
+		c16AddFeature(sc, "target-without-labels")
+	} else {
+		lm := c16Meta(sc.Target, "labels")
+		c16Satisfy(lm, rule.Labels)
+		if len(lm) == 0 {
+			lm["app"] = "a"
+		}
+		md["labels"] = lm
+	}
+	if shape == 1 || shape == 2 {
+		delete(md, "annotations")
+		rule.Annotations = c16BareAnnotSels[r.Intn(len(c16BareAnnotSels))]
+		c16AddFeature(sc, "target-without-annotations")
+	} else {
+		am := c16Meta(sc.Target, "annotations")
+		c16Satisfy(am, rule.Annotations)
+		if len(am) == 0 {
+			am["note"] = "n"
+		}
+		md["annotations"] = am
+	}
+	sc.Features = c16DropFeatures(sc.Features, "maybe-unselected", "hook-changes-mind", "edited-between-rounds")
+	sc.Ctl.Finalize, sc.Ctl.NoSync = false, false
+	sc.Hook2, sc.Setup, sc.Objects = nil, nil, nil
+	sc.Warmup = 0
+	// an answer part that asks nothing of the map as it is
+	quiet := func(field string) map[string]*string {
+		cur, _ := md[field].(map[string]interface{})
+		switch r.Intn(4) {
+		case 0:
+			return nil // the key is not in the answer
+		case 1:
+			return map[string]*string{} // an empty object
+		case 2:
+			out := map[string]*string{"absent-key": nil}
+			if r.Bool() {
+				out["another-absent-key"] = nil
+			}
+			return out
+		default:
+			out := map[string]*string{}
+			for k, v := range cur {
+				if r.Bool() {
+					out[k] = c16Str(v.(string))
+				}
+			}
+			if r.Bool() {
+				out["absent-key"] = nil
+			}
+			return out
+		}
+	}
+	h := c16HookProgram{Kind: "const", Labels: quiet("labels"), Annotations: quiet("annotations")}
+	switch r.Intn(3) {
+	case 0:
+		h.StatusMode = "null"
+	case 1:
+		h.StatusMode = "echo"
+	}
+	if r.Chance(1, 6) {
+		// control: a genuine change must be written
+		if r.Bool() {
+			h.Labels = map[string]*string{"deco-bare": c16Str("1")}
+		} else {
+			h.Annotations = map[string]*string{"deco-bare": c16Str("")}
+		}
+		c16AddFeature(sc, "bare-genuine-change")
+	} else {
+		c16AddFeature(sc, "response-changes-nothing")
+	}
+	if r.Chance(1, 3) && len(sc.Ctl.Attachments) > 0 {
+		h.Attachments = []c16J{g.attachment(sc.Ctl.Attachments[0], *rule, "a0", 1)}
+	}
+	sc.Hook = h
+	sc.Rounds = []c16RoundSpec{{}, {}}
+	return sc
+}
+
 // nochange: the response names nothing new: no request may be sent to the target
 func (g *c16Gen) nochange(i int, seed uint64) *c16Scenario {
 	r := g.r
@@ -1777,6 +1876,22 @@ func c16Corpus() []*c16Scenario {
 			Ctl:    c16CtlSpec{Name: fmt.Sprintf("corpus10c%d", j), Rules: []c16RuleSpec{ru}, Attachments: []c16AttSpec{att}},
 			Target: tgt, Hook: c16HookProgram{Kind: "raw", RawBody: body}, Rounds: []c16RoundSpec{{}, {}}})
 	}
+	// 10d. targets whose metadata has no labels map / no annotations map / neither, and answers that ask nothing:
+	//      no request, in particular no update that carries an empty map
+	for j, v := range []struct {
+		labels, annots c16J
+		h              c16HookProgram
+	}{
+		{nil, c16J{"note": "n"}, c16HookProgram{Kind: "const"}},
+		{c16J{"app": "a"}, nil, c16HookProgram{Kind: "const", Labels: map[string]*string{"app": c16Str("a")}, Annotations: map[string]*string{"absent": nil}}},
+		{nil, nil, c16HookProgram{Kind: "const", Labels: map[string]*string{}, Annotations: map[string]*string{}, StatusMode: "null"}},
+		{nil, nil, c16HookProgram{Kind: "const", Labels: map[string]*string{"absent": nil}, StatusMode: "echo"}},
+	} {
+		bareRule := c16PodRule
+		out = append(out, &c16Scenario{Family: "corpus", Features: []string{"corpus-bare-target", "response-changes-nothing"},
+			Ctl:    c16CtlSpec{Name: fmt.Sprintf("corpus10d%d", j), Rules: []c16RuleSpec{bareRule}},
+			Target: pod(v.labels, v.annots, c16J{"phase": "P"}), Hook: v.h, Rounds: []c16RoundSpec{{}, {}}})
+	}
 	// 11. the update strategy of the attachment rule decides what happens to a differing attachment:
 	//     core-group kind (ConfigMap) and named-group kind (Gadget) under InPlace, Recreate and OnDelete;
 	//     a0 stays, a1 changes, a2 is no longer desired
@@ -1859,7 +1974,10 @@ func c16GenerateScenarios(prop string, seed uint64, n int, adv bool) []*c16Scena
 	if prop == "C06d" {
 		strategySlots = map[int]bool{0: true, 1: true, 2: true, 3: true, 4: true, 5: true, 7: true, 10: true}
 	}
-	extra := map[int]string{6: "nulls", 9: "retries", 11: "converge", 12: "failed-write", 1: "shared-fail"}
+	extra := map[int]string{6: "nulls", 9: "retries", 11: "converge", 12: "failed-write", 1: "shared-fail", 4: "bare", 15: "bare"}
+	if prop != "C06d" {
+		strategySlots = map[int]bool{2: true} // slot 4 goes to the bare-target family
+	}
 	switch prop {
 	case "C01d":
 		extra = map[int]string{}
@@ -1908,6 +2026,11 @@ func c16GenerateScenarios(prop string, seed uint64, n int, adv bool) []*c16Scena
 				pick = 12
 			case "shared":
 				pick = 7
+			case "bare":
+				if pick == 15 && i%32 == 15 {
+					break // the odd-key family keeps its share of slot 15
+				}
+				pick = 108
 			case "failed-write":
 				pick = 106
 			case "shared-fail":
@@ -1919,6 +2042,8 @@ func c16GenerateScenarios(prop string, seed uint64, n int, adv bool) []*c16Scena
 			}
 		}
 		switch pick {
+		case 108:
+			sc = g.bare(i, s)
 		case 106:
 			sc = g.failedWrite(i, s)
 		case 107:
